@@ -36,6 +36,8 @@ def run(m: Model, r: Report, tier: str) -> None:
     r.rule("R5", "every normal return after acquiring the lock passes the release", floor=1)
     r.rule("R6", "AsyncScript.run: teardown runs on every exit of main, and only after setup completed", floor=2)
     r.rule("R8", "the post-hook sees this run's exit code and META: the run-specific variables are set after (and never overridden by) the inherited environment", floor=2)
+    r.rule("R9", "guards of the bookkeeping steps, evaluated over their complete truth tables: hook script selection, hook environment, DB completion, "
+                 "META.json and log registration happen exactly under their documented conditions; arguments are bound to the right parameters", floor=10)
     r.rule("R7", "META.json / run_meta writer keys cover what the rerunner reads; config is the full JSON dump of the model", floor=3)
 
     ep = m.require_function(f"{BASE}.BaseCommand.entry_point")
@@ -210,6 +212,87 @@ def run(m: Model, r: Report, tier: str) -> None:
             r.check(not overriders, "R8", f"{rh.qualname}#{key}:not-overridden",
                     f"after {key} is set the hook environment is rebuilt / merged again ({overriders}): a value inherited from the process environment "
                     "(e.g. gallia started from another run's post-hook) replaces this run's value", loc=rh.loc)
+
+    # ---------------------------------------------------------------- R9
+    from sa.util import path_condition, truth_table
+    from sa import miniterp
+    from sa import transport_rules as _tr
+    vpar = rh.params()[1] if len(rh.params()) > 1 else "variant"
+    epar = rh.params()[2] if len(rh.params()) > 2 else "exit_code"
+    # (a) script selection
+    sel = [n for n in walk_no_nested(rh.node) if isinstance(n, ast.Assign) and isinstance(n.targets[0], ast.Name) and "pre_hook" in ast.unparse(n.value) and "post_hook" in ast.unparse(n.value)]
+    if len(sel) != 1:
+        raise AnalysisError(f"{rh.qualname}: hook script selection not found")
+    SV_ = sel[0].targets[0].id
+    bad = []
+    for v in ("PRE", "POST"):
+        got = miniterp.eval_expr(sel[0].value, {vpar: v, "HookVariant.PRE": "PRE", "HookVariant.POST": "POST", "self.config.pre_hook": "pre", "self.config.post_hook": "post"})
+        if got != v.lower():
+            bad.append(f"{v} hook runs the {got}_hook script")
+    r.check(not bad, "R9", f"{rh.qualname}#script-selection", f"{bad}", loc=rh.loc)
+    # (b) nothing to run iff no script
+    early = [n for n in rh.node.body if isinstance(n, ast.If) and any(isinstance(x, ast.Return) for x in n.body) and SV_ in ast.unparse(n.test)]
+    if len(early) != 1:
+        raise AnalysisError(f"{rh.qualname}: early return for an unset hook not found")
+    bad = truth_table([(early[0].test, True)], {SV_: [None, "", "./hook.sh"]}, lambda a: a[SV_] in (None, ""))
+    r.check(not bad, "R9", f"{rh.qualname}#runs-iff-script", f"the hook is skipped on: {bad}; it must run exactly when a non-empty script is configured", loc=rh.loc)
+    # (c) hook environment
+    for key, atoms, expect, doc in (("GALLIA_META", {vpar: ["PRE", "POST"]}, lambda a: a[vpar] == "POST", "only for the post-hook"),
+                                    ("GALLIA_EXIT_CODE", {epar: [None, 0, 3]}, lambda a: a[epar] is not None, "whenever an exit code is given (0 included)")):
+        sets = [n for n in ast.walk(rh.node) if isinstance(n, ast.Assign) and isinstance(n.targets[0], ast.Subscript) and isinstance(n.targets[0].slice, ast.Constant)
+                and n.targets[0].slice.value == key]
+        if len(sets) != 1:
+            continue
+        conds = path_condition(rh.node, sets[0])
+        at = dict(atoms)
+        at.update({"HookVariant.PRE": ["PRE"], "HookVariant.POST": ["POST"]})
+        bad = truth_table(conds, at, expect)
+        r.check(not bad, "R9", f"{rh.qualname}#{key}:condition", f"{key} is set on {bad}; documented: {doc}", loc=rh.loc)
+    # (d) the two hook calls of entry_point
+    hook_bind = []
+    for c in hook_calls:
+        b = _tr.bind_call(m, ep, c)
+        if b is None:
+            raise AnalysisError(f"{ep.qualname}: cannot bind run_hook arguments")
+        conds = path_condition(ep.node, next(s_ for s_ in ast.walk(ep.node) if isinstance(s_, ast.Expr) and s_.value is c))
+        hook_bind.append((ast.unparse(b.get(vpar)) if b.get(vpar) is not None else None, ast.unparse(b[epar]) if epar in b else None, [(ast.unparse(t), p_) for t, p_ in conds]))
+    r.check(sorted(hook_bind, key=str) == sorted([("HookVariant.PRE", None, [("self.config.hooks", True)]), ("HookVariant.POST", EC, [("self.config.hooks", True)])], key=str),
+            "R9", f"{ep.qualname}#hook-calls", f"hook invocations are {hook_bind}; expected the pre-hook without and the post-hook with this run's exit code, both iff config.hooks", loc=ep.loc)
+    # (e) DB completion
+    cb = _tr.bind_call(m, fin, calls[0]) if len(calls) == 1 else None
+    r.check(cb is not None and ast.unparse(cb.get("exit_code", ast.Constant(value=None))) == "self.run_meta.exit_code", "R9", f"{fin.qualname}#complete_run_meta:exit_code",
+            f"complete_run_meta(exit_code=...) receives `{ast.unparse(cb['exit_code']) if cb and 'exit_code' in cb else None}`", loc=fin.loc)
+    if len(calls) == 1:
+        conds = path_condition(fin.node, next(s_ for s_ in ast.walk(fin.node) if isinstance(s_, ast.Expr) and any(x is calls[0] for x in ast.walk(s_))))
+        bad = truth_table(conds, {"self.db_handler": [None, "H"], "self.db_handler.connection": [None, "C"], "self.db_handler.meta": [None, 7]},
+                          lambda a: a["self.db_handler"] is not None and a["self.db_handler.connection"] is not None and a["self.db_handler.meta"] is not None)
+        r.check(not bad, "R9", f"{fin.qualname}#completion-condition", f"the run meta is completed on {bad[:3]}; it must be completed exactly when a connected handler with an inserted run meta exists", loc=fin.loc)
+    dcalls = [s_ for s_ in ast.walk(fin.node) if isinstance(s_, ast.Expr) and any(isinstance(x, ast.Call) and isinstance(x.func, ast.Attribute) and x.func.attr == "disconnect" for x in ast.walk(s_))]
+    if len(dcalls) == 1:
+        bad = truth_table(path_condition(fin.node, dcalls[0]), {"self.db_handler": [None, "H"], "self.db_handler.connection": [None, "C"], "self.db_handler.meta": [None, 7]},
+                          lambda a: a["self.db_handler"] is not None and a["self.db_handler.connection"] is not None)
+        r.check(not bad, "R9", f"{fin.qualname}#disconnect-condition", f"the handler is disconnected on {bad[:3]}", loc=fin.loc)
+    # (f) META.json and log file registration iff an artifacts dir exists
+    meta_w = [s_ for s_ in ast.walk(tr) if isinstance(s_, ast.Expr) and "write_text" in ast.unparse(s_) and "FileNames.META" in ast.unparse(s_)]
+    if len(meta_w) == 1:
+        bad = truth_table(path_condition(ep.node, meta_w[0]), {"self.artifacts_dir": [None, "DIR"]}, lambda a: a["self.artifacts_dir"] is not None)
+        r.check(not bad, "R9", f"{ep.qualname}#meta-json-condition", f"META.json is written on {bad}", loc=ep.loc)
+    reg = [s_ for s_ in walk_no_nested(ep.node) if isinstance(s_, ast.Expr) and "self.log_file_handlers.append(add_zst_log_handler(" in ast.unparse(s_)]
+    r.check(len(reg) == 1 and "FileNames.LOGFILE" in ast.unparse(reg[0]), "R9", f"{ep.qualname}#log-registered",
+            "the zstd log handler of the run (FileNames.LOGFILE in the artifacts dir) is not registered in self.log_file_handlers: no log file / never closed", loc=ep.loc)
+    if len(reg) == 1:
+        bad = truth_table(path_condition(ep.node, reg[0]), {"self.artifacts_dir": [None, "DIR"]}, lambda a: a["self.artifacts_dir"] is not None)
+        r.check(not bad, "R9", f"{ep.qualname}#log-condition", f"the log handler is registered on {bad}", loc=ep.loc)
+    # (g) the run meta row is inserted before the guarded region
+    ins_st = [i for i, s_ in enumerate(ep.node.body) if isinstance(s_, ast.Expr) and "self._db_insert_run_meta()" in ast.unparse(s_)]
+    tri = [i for i, s_ in enumerate(ep.node.body) if s_ is tr]
+    r.check(len(ins_st) == 1 and tri and ins_st[0] < tri[0], "R9", f"{ep.qualname}#run-meta-inserted",
+            "the run meta row must be inserted unconditionally before the guarded region (its completion in the finally relies on it)", loc=ep.loc)
+    # (h) the lock is taken iff a lock file is configured
+    acq_st = [s_ for s_ in ast.walk(ep.node) if isinstance(s_, ast.Expr) and "self._aquire_flock()" in ast.unparse(s_)]
+    if len(acq_st) == 1:
+        bad = truth_table(path_condition(ep.node, acq_st[0]), {"self.config.lock_file": [None, "/tmp/l"]}, lambda a: a["self.config.lock_file"] is not None)
+        r.check(not bad, "R9", f"{ep.qualname}#lock-condition", f"the lock is acquired on {bad}", loc=ep.loc)
 
     # ---------------------------------------------------------------- R4
     owners = {f"{BASE}.BaseCommand._db_finish_run_meta"}
